@@ -180,7 +180,7 @@ static Plan gen_low(uint64_t seed, const Op &opts) {
     static const int lB[][2] = {{2, 10}, {3, 7}, {1, 16}, {2, 8}, {4, 8}, {3, 10}, {2, 16}, {1, 8}, {8, 4}, {16, 2}, {4, 5}, {1, 20}, {32, 1}, {6, 5}};
     int i = (int) r.below(14);
     while (opts.has("xBmax") && lB[i][1] > opts.geti("xBmax")) i = (int) r.below(14);
-    p.cfg.seti("xk", r.bern(0.3) ? 2 : 1).seti("xl", lB[i][0]).seti("xB", lB[i][1]);
+    p.cfg.seti("xk", r.bern(0.3) ? (r.bern(0.3) ? 3 : 2) : 1).seti("xl", lB[i][0]).seti("xB", lB[i][1]);
     static const double xa[] = {0, 0, 1e-9, 2.98023223876953125e-08, 1e-6};
     p.cfg.setd("xalpha", xa[r.below(5)]);
     std::string only = opts.gets("ops", "");
@@ -200,8 +200,12 @@ static Plan gen_low(uint64_t seed, const Op &opts) {
             static const int dims[] = {1, 2, 3, 7, 8, 9, 15, 16, 17, 33, 64};
             o.seti("t", tb[q][0]).seti("bb", tb[q][1]).seti("nin", dims[r.below(11)]).seti("nout", dims[r.below(11)]).seti("noisy", (int) r.below(2)).seti("mask", (int) r.below(4));
             if (tb[q][1] >= 10) o.seti("nin", dims[r.below(4)]).seti("nout", dims[r.below(6)]);   // base 2^bb rows: keep the key small
+            else if (tb[q][0] * (1 << tb[q][1]) <= 64 && r.bern(0.15)) { static const int big[] = {500, 630, 1024, 1100, 2048}; o.seti("nin", big[r.below(5)]).seti("nout", dims[r.below(9)]); }   // extracted-key sized inputs
         }
-        if (k == "boot") o.seti("var", (int) r.below(4)).seti("xs", (int) r.below(5)).seti("mu", (int32_t) r.next());
+        if (k == "boot") {
+            static const int32_t smu[] = {0, INT32_MIN, 1, -1, 1 << 29, 1 << 30, -(1 << 29), 0x2AAAAAAB, INT32_MAX};
+            o.seti("var", (int) r.below(4)).seti("xs", (int) r.below(5)).seti("mu", r.bern(0.3) ? smu[r.below(9)] : (int32_t) r.next());
+        }
         if (k == "bre") o.seti("fft", (int) r.below(2)).seti("barb", r.bern(0.4) ? (int) (r.below(4) == 0 ? 0 : r.below(4) == 1 ? 1023 : r.below(2) ? 1024 : 2047) : (int) r.below(2048));
         if (k == "extract") o.seti("idx", r.bern(0.3) ? (r.bern(0.5) ? 0 : 1023) : (int) r.below(1024));
         p.ops.push_back(o);
